@@ -100,16 +100,14 @@ TAINTED = 'AccessControl.tainted.TaintedString'
 
 
 def tainted_string(E, args, kwargs, node):
-    """TaintedString(value): a wrapper object marking untrusted text (library class, assumed contract: isinstance holds,
-    str(t) is the raw value, t.quoted() is the HTML-escaped value)"""
-    from .builtins_ import isa_term
-    r = E.fresh_opaque('tainted')
-    E.tfacts[(r.name, TAINTED)] = True
-    E.assume(isa_term(E, r, TAINTED))
-    E.ghost.setdefault('taint_wrap', {})[r.name] = args[0] if args else None
-    E.trace.append(('taint-wrap', r, args[0] if args else None))
-    _assumed(E, 'AccessControl TaintedString(v) is an instance of TaintedString wrapping v')
-    return r
+    """TaintedString(value): see pyvc/tainted.py"""
+    from . import tainted
+    v = args[0]
+    if tainted.is_tainted(E, v):
+        v = tainted.raw(E, v)
+    if not E.is_strlike(v):
+        raise Unsupported('TaintedString of a non-str value')
+    return tainted.make(E, v)
 
 
 def itemgetter(E, args, kwargs, node):
